@@ -415,7 +415,7 @@ func runC07(c *core.Ctx) {
 	c.Set("configurations", len(cfgs))
 	for _, cfg := range cfgs {
 		sp := variantDefs["C07/lifecycle"](cfg)
-		sp.depth = depth
+		sp.depth, sp.conform = depth, 6
 		runSearch(c, sp)
 		if cfg.InitS == 5 && (!c.Quick() || cfg.BeginString == "FIX.4.2") {
 			sp2 := variantDefs["C07/seqreset"](cfg)
@@ -441,5 +441,6 @@ func runC07(c *core.Ctx) {
 			runSearch(c, sp)
 		}
 	}
+	runConformance(c)
 	c.Set("depth", depth)
 }
